@@ -329,6 +329,11 @@ fn connector_case(idx: u64, seed: u64, rep: &mut Report) {
     c.domain = client::ascii_name(&mut r, 10);
     c.user = client::ascii_name(&mut r, 10);
     c.nla = true;
+    // the modes that empty what is sent AFTER the authentication (restricted admin, blank credentials) and the logon flag
+    // must not change whom the token authenticates
+    c.restricted_admin = r.chance(1, 3);
+    c.blank_creds = r.chance(1, 4);
+    c.auto_logon = r.chance(1, 2);
     let by_hash = idx % 2 == 0;
     if by_hash {
         c.hash = Some(ntlm::nt_hash(&real_password).to_vec());
@@ -372,7 +377,12 @@ fn connector_case(idx: u64, seed: u64, rep: &mut Report) {
                 let auth = probe.with(|s| s.nla_log.auth.clone());
                 let nth = if k == 0 { "" } else { "-reconnection" };
                 match auth {
-                    Some(Ok(_)) => rep.hist(if k == 0 { "accepted" } else { "accepted-on-reconnection" }),
+                    Some(Ok(_)) => {
+                        rep.hist(if k == 0 { "accepted" } else { "accepted-on-reconnection" });
+                        if c.restricted_admin {
+                            rep.hist("accepted-in-restricted-admin-mode");
+                        }
+                    }
                     Some(Err(e)) if e.contains("payload starts at offset") => rep.hist("no-version-layout(known)"),
                     Some(Err(e)) => rep.violation(
                         format!("C15/connector-{}{}/rejected:{}", if by_hash { "hash" } else { "password" }, nth, mon::normalise(&e)),
